@@ -308,9 +308,37 @@ pub fn main(tier: Tier, seed: u64) -> i32 {
                 tap_cases.push((ci, name, occ));
             }
         }
+        // two consistent lies in one bucket / one opening (occurrence 100+k = pair variant k)
+        for k in 0..3usize {
+            tap_cases.push((ci, "dvalue_bits", 100 + k));
+            tap_cases.push((ci, "beaver_de", 100 + k));
+        }
     }
     let tap_res = par_map(&tap_cases, |w, _, (ci, name, occ)| {
         let cfg = &cfgs[*ci];
+        if *occ >= 100 {
+            let k = *occ - 100;
+            let f: crate::hooks::TapFn = Arc::new(move |h: &mut Hook<'_>| match h {
+                Hook::BoolVecs(v) => {
+                    // two d-values of bucket k (or of the first non-trivial bucket)
+                    let idx = if k < v.len() && v[k].len() >= 2 { k } else { 0 };
+                    if let Some(x) = v.get_mut(idx)
+                        && x.len() >= 2
+                    {
+                        x[0] = !x[0];
+                        let l = x.len() - 1;
+                        x[l] = !x[l];
+                    }
+                }
+                Hook::Bools(b) if b.len() >= 2 * k + 2 => {
+                    // d and e of opening k
+                    b[2 * k] = !b[2 * k];
+                    b[2 * k + 1] = !b[2 * k + 1];
+                }
+                _ => {}
+            });
+            return run_faults(cfg, vec![], vec![TapSpec { party: cfg.corrupted, name: name.to_string(), occ: Some(0), f }], false, w).0;
+        }
         run_faults(cfg, vec![], vec![TapSpec { party: cfg.corrupted, name: name.to_string(), occ: Some(*occ), f: flip_all() }], false, w).0
     });
     for ((ci, name, occ), r) in tap_cases.iter().zip(tap_res.iter()) {
